@@ -284,6 +284,9 @@ def natural_cases():
         add("devtty-no-ctty", f + "output = devtty", pre=["setsid"])
         add("config-unreadable", f + "output = file:{W}/log", pre=["confmode 000"], uid=U)
         add("stdin-closed-tty-sources", 'message_format = "%{tty} %{tty_uid} %{tty_username} %{ipaddr}"\noutput = file:{W}/log', pre=["stdin closed"])
+        # /proc/<pid>/cgroup is larger than the library's small-file reader takes (10 KiB), or cannot be read at all
+        add("cgroup-file-12k", 'message_format = "%{cgroup:1} %{cgroup:name=systemd} %{systemd_unit_name} %{cmdline}"\noutput = file:{W}/log', pre=["bindself-bigcgroup"])
+        add("cgroup-file-is-directory", 'message_format = "%{cgroup:1} %{systemd_unit_name} %{cmdline}"\noutput = file:{W}/log', pre=["bindself-dircgroup"])
         # another process holds an advisory lock (flock) on the log file and keeps it
         add("file-flocked-by-another-process", f + "output = file:{W}/lockedlog")
         # the log file has reached the caller's own file size limit (ulimit -f): the write raises SIGXFSZ, default = fatal
@@ -317,6 +320,10 @@ def nat_script(c, B, s):
         ls.bind(os.path.join(w, "streamsock"))
         ls.listen(1)
         os.makedirs(os.path.join(w, "gone"), exist_ok=True)
+        with open(os.path.join(w, "bigcgroup"), "wb") as cf:
+            cf.write(b"".join(b"%d:controller%d:/a/deeply/nested/control/group/path/number/%d/of/many\n" % (200 - i, i, i) for i in range(200)))
+        open(os.path.join(w, "hostsdir-file"), "wb").close()
+        os.chmod(os.path.join(w, "hostsdir-file"), 0o000)
         with open(os.path.join(w, "bigfile"), "wb") as bf:
             bf.truncate(67108864)           # sparse, exactly at the limit the state sets
         os.chmod(os.path.join(w, "bigfile"), 0o666)
@@ -330,7 +337,11 @@ def nat_script(c, B, s):
     s.raw("envset " + Script.vec([b"HOME=/root", b"LOGNAME=lg", b"TZ=UTC"]))
     s.conf(("[snoopy]\n" + c["conf"].replace("{W}", B.work) + "\n").encode())
     for p in c["pre"]:
-        if p == "chdir-deleted":
+        if p == "bindself-bigcgroup":
+            s.raw("bindself %s %s" % (os.path.join(B.work, "bigcgroup").encode().hex(), b"cgroup".hex()))
+        elif p == "bindself-dircgroup":
+            s.raw("bindself %s %s" % (os.path.join(B.work, "hostsdir-file").encode().hex(), b"cgroup".hex()))
+        elif p == "chdir-deleted":
             d = os.path.join(B.work, "gone", "d%d" % c["id"])
             os.makedirs(d, exist_ok=True)
             s.raw("chdir " + d.encode().hex())
